@@ -26,6 +26,7 @@ import Sds.Proofs.IntVec
 import Sds.Proofs.Codec
 import Sds.Proofs.GenEqVec
 import Sds.Proofs.GenEqVec2
+import Sds.Proofs.GenEqConstr2
 
 namespace Sds.C05
 open Sds Outcome
@@ -285,5 +286,14 @@ theorem int_vector_more_ops_as_translated_from_source (m : Mode) (v : IntVec) (l
     Generated.gen_IntVector_clear m v = ok v.clear :=
   ⟨GenEq.int_new_eq m width, fun h => GenEq.int_with_len_eq' m len width value h,
    fun hwf hb => GenEq.int_pop_eq m v hwf hb, GenEq.int_clear_eq m v⟩
+
+/-! **`IntVector::pack` as translated from the source on this run** (`Generated/FnsConstr2.lean`): the early return on an
+empty vector, `bit_len(self.iter().max().unwrap())` (the items read in order through `get`), the early return when the
+width is already minimal, `len * new_width` for the capacity, and the re-push loop `for value in self.iter()` — equal to
+the model's `pack` on every well-formed vector whose bit length fits a `usize` with room for rounding. -/
+theorem int_vector_pack_as_translated_from_source (m : Mode) (v : IntVec) (hwf : v.WF)
+    (hb : v.len * v.width + 63 < U64) :
+    Generated.gen_IntVector_pack m v = ok v.pack :=
+  GenEq.int_pack_eq m v hwf hb
 
 end Sds.C05
